@@ -488,9 +488,9 @@ def run(ctx: Ctx) -> int:
             dict(name="doubled", what="exhaustive: 2A->B and A->2B networks, label counts 1..3 (doubled compound with 2-3 positions), "
                  "involutive maps only, max(S,P)<=6, every combination of the two non-uniform distributions",
                  tpls=DOUBLED_TPLS, maxnl=3, maxl=6, invol=True, distall=True, dists=(3, 4)),
-            dict(name="orders", what="exhaustive: A+B->C and A->B+C networks in all four presentation orders, label counts 1..3, "
-                 "involutive maps only, max(S,P)<=6, non-uniform distributions",
-                 tpls=["bi", "split"], maxnl=3, maxl=6, invol=True, ords=ALL_ORDS, distall=True, dists=(3, 4)),
+            dict(name="orders", what="exhaustive: A+B->C and A->B+C networks in all four presentation orders, label counts 1..2, "
+                 "involutive maps only, max(S,P)<=4, every combination of the two non-uniform distributions",
+                 tpls=["bi", "split"], maxnl=2, maxl=4, invol=True, ords=ALL_ORDS, distall=True, dists=(3, 4)),
             dict(name="orders_all", what="exhaustive: A+B->C and A->B+C networks, orders swap and swaprev, label counts 1..2, all maps max(S,P)<=3",
                  tpls=["bi", "split"], maxnl=2, maxl=3, ords=("swap", "swaprev")),
             dict(name="doubled_all", what="exhaustive: A->2B network, label counts 1..2, all maps max(S,P)<=4, non-uniform distributions",
